@@ -12,8 +12,8 @@ LEVEL_NOTE = ("Trusted: Lean 4.33.0 kernel; axioms propext, Classical.choice, Qu
 
 CHECKS = {
     "C01": {
-        "technique": "Lean 4 proof (soundness of the engine model w.r.t. the RFC 5234 derivation relation, by induction on fuel and match lists) + differential correspondence model-vs-code on end sets + exhaustive code point sweep",
-        "text": "Theorems about the Lean model of the match-listing engine (every reported end is RFC-derivable; ...) hold for all grammars, sources and offsets; the model is tied to the real code by comparing end sets on generated grammars/inputs and adjudicating disagreements against the reference set semantics.",
+        "technique": "Lean 4 proof: soundness, completeness (frontier fixpoint) and termination (explicit fuel bound from a well-formedness certificate) of the engine model w.r.t. the RFC 5234 derivation relation + differential correspondence model-vs-code on end sets (object API and ABNF-text route) + exhaustive code point sweep",
+        "text": "C01.matching_conforms: for every grammar with a well-formedness certificate and no flags/exclusions, every rule, source and offset, the model engine answers and lists exactly the RFC 5234 derivable ends. The model is tied to the real code by comparing end sets on generated grammars/inputs; disagreements are adjudicated against the reference set semantics.",
         "design_ref": "DESIGN.md section 8 / C01",
     },
     "C02": {
@@ -42,8 +42,8 @@ CHECKS = {
         "design_ref": "DESIGN.md section 8 / C10",
     },
     "C12": {
-        "technique": "Lean 4 proof (outcomes of the engine model are ok / ParseError / GrammarError only; fuel sufficiency for well-formed grammars) + differential on arbitrary Unicode incl. undefined rules; corrupted rule texts vs the reader model with registry snapshots",
-        "text": "Totality of the model engine; tie: outcome classes on generated grammars/inputs (any other exception class is a failing input by construction) and load atomicity on corrupted texts. The polynomial work bound is not claimed as a theorem.",
+        "technique": "Lean 4 proof: termination with an explicit recursion-depth bound for every grammar with a well-formedness certificate (C12.terminates, incl. nullable elements under *), GrammarError only from undefined rules + differential on arbitrary Unicode incl. undefined rules; corrupted rule texts vs the reader model with registry snapshots; work-growth probe with diagnosis",
+        "text": "Termination and outcome classes are theorems about the model; tie: outcome classes on generated grammars/inputs (any other exception class is a failing input by construction), load atomicity on corrupted texts. The polynomial work bound is NOT a theorem and is false of the code (open known finding F14, re-confirmed on every run).",
         "design_ref": "DESIGN.md section 8 / C12",
     },
     "C13": {
